@@ -99,7 +99,7 @@ FORMULAS = {
             "Gen.production_max_is_code", "Gen.ordersFrom_is_code", "Gen.needWith_is_code"],
     "C03": ["Gen.xOpt_is_code", "Gen.capacity_is_code", "Gen.cons_is_code", "Gen.cons_base_is_code", "Gen.production_max_is_code"],
     "C18": ["Gen.cons_is_code", "Gen.cons_base_is_code", "Gen.zProd_is_code", "Gen.altShare_is_code", "Gen.ordersFrom_is_code"],
-    "C06": ["Gen.needWith_is_code", "Gen.zProd_is_code", "Gen.altShare_is_code", "Gen.ordersFrom_is_code"],
+    "C06": ["Gen.needWith_is_code", "Gen.zProd_is_code", "Gen.altShare_is_code", "Gen.ordersFrom_is_code", "Gen.gapOpen_is_code", "Gen.goal_is_code"],
     "C04": ["Gen.deliverCell_is_code", "Gen.deliveries_are_code"],
     "C05": ["Gen.stockUse_is_code", "Gen.stockUpdated_is_code", "Gen.deliveries_are_code"],
     "C08": ["Gen.subBlock_is_code", "Gen.deliverCell_is_code"],
@@ -116,7 +116,7 @@ FORMULA_MODULE = {
     "Gen.deliverCell_is_code": "FormulasDistribute", "Gen.deliveries_are_code": "FormulasDistribute", "Gen.stockUse_is_code": "FormulasDistribute",
     "Gen.stockUpdated_is_code": "FormulasDistribute", "Gen.subBlock_is_code": "FormulasDistribute",
     "Gen.needWith_is_code": "FormulasOrders", "Gen.zProd_is_code": "FormulasOrders", "Gen.altShare_is_code": "FormulasOrders",
-    "Gen.ordersFrom_is_code": "FormulasOrders",
+    "Gen.ordersFrom_is_code": "FormulasOrders", "Gen.gapOpen_is_code": "FormulasOrders", "Gen.goal_is_code": "FormulasOrders",
     "Gen.linear_is_code": "FormulasCurves", "Gen.convexe_is_code": "FormulasCurves", "Gen.convexe_scaled_is_code": "FormulasCurves",
     "Gen.cellwise_linear_is_code": "FormulasCurves", "Gen.cellwise_convexe_is_code": "FormulasCurves",
     "Gen.cellwise_convexe_scaled_is_code": "FormulasCurves",
